@@ -307,10 +307,15 @@ def run(res, tier, seed, wd, replay=None):
     runs_sock = 18 if tier == "quick" else 300
     trK = os.path.join(wd, "trace-sink-drive.ndjson")
     s3, _ = cvh(["sink-drive", "--seed", seed, "--runs", runs_sock, "--ops", 80, "--out", trK], timeout=3000)
-    log("[B] real sockets: %d runs/%d calls over every sink kind" % (s3["runs"], s3["calls"]))
+    # ... and shared between threads: what a call promises (flush Ok = everything accepted before it is written, whole
+    # lines per datagram) holds for every caller of a shared sink; events are ordered by the critical sections
+    runs_conc = 12 if tier == "quick" else 240
+    trC = os.path.join(wd, "trace-sink-conc.ndjson")
+    s4, _ = cvh(["sink-conc", "--seed", seed, "--runs", runs_conc, "--out", trC], timeout=3000)
+    log("[B] real sockets: %d runs/%d calls over every sink kind, %d concurrent shared-sink runs/%d calls" % (s3["runs"], s3["calls"], s4["runs"], s4["calls"]))
     # ---- verdict: TLC validates every recorded trace against the monitor
     allf = os.path.join(wd, "trace-all.ndjson")
-    nev = concat([trA, trB1, trB2, trS, trK], allf)
+    nev = concat([trA, trB1, trB2, trS, trK, trC], allf)
     v = validate_trace("WriterTrace", allf, wd, timeout=1800)
     if v["consumed"] != v["total"]:
         raise ToolError("trace not fully consumed: %s of %s" % (v["consumed"], v["total"]))
@@ -328,12 +333,14 @@ def run(res, tier, seed, wd, replay=None):
             return {"how": "writer-replay", "behaviour": b}
         if str(e.get("kind", "")).startswith("stack-"):
             return {"how": "stack-drive", "run": e.get("run"), "args": ["--seed", seed, "--runs", 20 if tier == "quick" else 400]}
+        if str(e.get("kind", "")).startswith("conc-"):
+            return {"how": "sink-conc", "kind": e.get("kind"), "run": e.get("run"), "args": ["--seed", seed, "--runs", runs_conc]}
         if e.get("kind") not in ("mlw", "spy"):
             return {"how": "sink-drive", "kind": e.get("kind"), "run": e.get("run"), "args": ["--seed", seed, "--runs", runs_sock, "--ops", 80]}
         return {"how": "writer-drive", "kind": e.get("kind"), "run": e.get("run"),
                 "args": ["--kind", e.get("kind"), "--seed", seed, "--runs", runs_mlw if e.get("kind") == "mlw" else runs_spy, "--ops", ops]}
     judge(res, v, events, origin)
-    ntraces = summ["behaviours"] + s1["runs"] + s2["runs"] + nstack + s3["runs"]
+    ntraces = summ["behaviours"] + s1["runs"] + s2["runs"] + nstack + s3["runs"] + s4["runs"]
     res.cov["traces_validated_against_impl"] = ntraces
     res.cov["evaluations"] = nev
     res.cov["distinct_nontrivial"] = ntraces
